@@ -130,6 +130,27 @@ impl Property for C07 {
             4 => (backend(6, 1), gen::fq_special()).prop_map(|(bk, r0)| Case::One { bk, r0 }),
             1 => (backend(1, 1), gen::r0_targeted()).prop_map(|(bk, r0)| Case::One { bk, r0 }),
             1 => (backend(6, 1), gen::fq_special(), gen::fq_special()).prop_map(|(bk, r1, r2)| Case::Two { bk, r1, r2 }),
+            // related inputs: the map depends on r^2 only, and r -> 1/(zeta r) negates its output, so these
+            // pairs make the two summands equal, opposite, or cancel
+            1 => (backend(1, 1), gen::fq_special(), 0u8..10).prop_map(|(bk, r1, rel)| {
+                let f = &*Q;
+                let z = &CURVE.zeta;
+                let inv = |x: &N| f.inv(x).unwrap_or_default();
+                let r = &r1.0 % &f.m;
+                let r2 = match rel {
+                    0 => r.clone(),
+                    1 => f.neg(&r),
+                    2 => inv(&f.mul(z, &r)),
+                    3 => f.neg(&inv(&f.mul(z, &r))),
+                    4 => inv(&r),
+                    5 => f.mul(z, &r),
+                    6 => f.mul(&r, &f.pow(z, &f.trace)),
+                    7 => f.mul(&r, &f.sqrt(&f.neg(&N::from(1u32))).unwrap_or_default()),
+                    8 => N::zero(),
+                    _ => inv(&f.mul(&f.sq(z), &r)),
+                };
+                Case::Two { bk, r1: Num(r), r2: Num(r2) }
+            }),
         ]
         .boxed()
     }
@@ -165,6 +186,12 @@ impl Property for C07 {
             v.push(Case::Two { bk, r1: Num(N::from(1u32)), r2: Num(N::from(7u32)) });
             v.push(Case::Two { bk, r1: Num(N::from(7u32)), r2: Num(N::from(1u32)) });
             v.push(Case::Two { bk, r1: Num(N::from(5u32)), r2: Num(q - 5u32) });
+            for r in [1u32, 2, 5, 7] {
+                let r = N::from(r);
+                let c = Q.inv(&Q.mul(&CURVE.zeta, &r)).unwrap();
+                v.push(Case::Two { bk, r1: Num(r.clone()), r2: Num(c.clone()) });
+                v.push(Case::Two { bk, r1: Num(Q.neg(&c)), r2: Num(r) });
+            }
         }
         v
     }
